@@ -335,11 +335,18 @@ class GridSpec:
 
         :return: Grid spec that encodes slippy tiles scheme in ``EPSG:3857``.
         """
+        zoom = int(zoom)  # plain int: ``2**(1 - zoom)`` is not defined for numpy integers
         R = 6_378_137
         pi = math.pi
         tsz = pi * R * (2 ** (1 - zoom))  # in meters
         x, y = -pi * R, pi * R  # top-left corner of tile 0,0
-        tile0 = geom.box(x, y - tsz, x + tsz, y, "epsg:3857")
-        shape = (npix, npix)
 
-        return GridSpec.from_sample_tile(tile0, shape=shape, idx=(0, 0), flipy=True)
+        # Not via ``from_sample_tile``: that recovers tile size as a difference of two
+        # large coordinates, and the bits lost there get multiplied by the tile index.
+        return GridSpec(
+            "epsg:3857",
+            (npix, npix),
+            resolution=resyx_(-tsz / npix, tsz / npix),
+            origin=xy_(x, y - tsz),
+            flipy=True,
+        )
